@@ -3,6 +3,7 @@ package main
 import (
 	"fmt"
 	"go/types"
+	"regexp"
 	"sort"
 	"strings"
 
@@ -18,7 +19,7 @@ func init() {
 			" In GetMember's object arm the prototype is consulted only when the key is absent from the object; sort works on a clone with fresh cells." +
 			" The for-in loop variable receives a copy of the element." +
 			" The evaluated cell itself enters an argument / item list only when no copy was requested, whatever kind of expression produced it; scalar payloads are written once, at allocation." +
-			" Every successful assignment copies its right-hand value into the target (no value or target kind is skipped); every declared parameter gets a cell of its own.",
+			" Every successful assignment copies its right-hand value into the target (no value or target kind is skipped); every declared parameter gets a cell of its own. Every member value of an object literal is stored as a copy made by copyValue; each root selector is evaluated on its own conversion of the input value.",
 		notDecided: "whole-document equality before / after a write.",
 	})
 }
@@ -30,6 +31,7 @@ func runC09(c *Ctx) {
 	indexResolution(c, "R4")
 	memberResolutionOrder(c, "R8")
 	c.shared("R13", "C06/R3", "`a op= b` means `a = a op b` with b the whole right-hand expression: the assignment parselets parse their right side from the assignment level, and the rewriter builds left = left OP right from it", keyHas("rbp", "desugar", "statement-level-expression"), runC06)
+	c.shared("R14", "C14/R4", "an assignment through `$` changes the root it was made through only: every selector's root is the result of evaluating that selector on a conversion of the input value made for it (not on a tree another selector's rules have already assigned into)", keyHas("root-list-contents"), func(s *Ctx) { rootsPerValue(s, "R4") })
 	c.shared("R12", "C10/R6", "an index assignment changes exactly the addressed location: every evaluation of a literal builds cells of its own — nothing evaluated earlier is remembered in the evaluator or in the syntax tree and handed out again", keyHas("evaluator-state", "syntax-tree-store", "interpreter-state"), func(s *Ctx) { interpreterState(s, "R6") })
 	c.shared("R11", "C08/R4", "assigning to a parameter changes the callee's own cell only: every declared parameter — supplied or not — is bound to a fresh cell in the callee's frame, so the name cannot resolve to a variable of a calling frame", nil, c08R4)
 	c.shared("R10", "C02/R4", "assigning to $ (or growing it) in a pattern rule changes the document: for an array root $ is the element's own cell, not a copy", keyHas("array-root-per-element"), c02R4)
@@ -91,22 +93,37 @@ func c09R1(c *Ctx) {
 		return
 	}
 	n := 0
-	allInstrs(eb, func(in ssa.Instruction) {
-		st, ok := in.(*ssa.Store)
-		if !ok || isLocalAddr(st.Addr) {
-			return
+	// evalBinaryExpr and the helpers split off it (an arm moved to a function of its own): in a helper
+	// the operands are parameters, named here by what the one call site passes
+	ebFns := []*ssa.Function{eb}
+	for _, h := range p.privateCluster(eb) {
+		if h != eb {
+			ebFns = append(ebFns, h)
 		}
-		n++
-		addr := abbrevBinary(strings.TrimPrefix(p.Render(st.Addr), "&"))
-		key := fmt.Sprintf("operand-store #%d %s", n, addr)
-		g := map[string]bool{}
-		for _, rl := range FactsOf(eb).At(st.Block()).Rels() {
-			g[abbrevBinary(p.Render(rl.x)+" "+rl.op.String()+" "+p.Render(rl.y))] = true
+	}
+	for _, fn := range ebFns {
+		fn := fn
+		subst := func(s string) string { return abbrevBinary(s) }
+		if fn != eb {
+			subst = paramSubst(p, eb, fn, abbrevBinary)
 		}
-		val := abbrevBinary(p.Render(st.Val))
-		okV := addr == "L.Value" && g["L.Value.Tag == ValueUnknown"] && (isFreshArrayText(val) || isFreshObjectText(val))
-		c.check(okV, "R1", key, p.InstrPos(st), "auto-vivification of an unset variable only", "evalBinaryExpr stores "+val+" into "+addr+" on a path where the operand is not known to be an unset variable: a read modifies an existing value")
-	})
+		allInstrs(fn, func(in ssa.Instruction) {
+			st, ok := in.(*ssa.Store)
+			if !ok || isLocalAddr(st.Addr) {
+				return
+			}
+			n++
+			addr := subst(strings.TrimPrefix(p.Render(st.Addr), "&"))
+			key := fmt.Sprintf("operand-store #%d %s", n, addr)
+			g := map[string]bool{}
+			for _, rl := range FactsOf(fn).At(st.Block()).Rels() {
+				g[subst(p.Render(rl.x)+" "+rl.op.String()+" "+p.Render(rl.y))] = true
+			}
+			val := subst(p.Render(st.Val))
+			okV := addr == "L.Value" && g["L.Value.Tag == ValueUnknown"] && (isFreshArrayText(val) || isFreshObjectText(val))
+			c.check(okV, "R1", key, p.InstrPos(st), "auto-vivification of an unset variable only", shortName(fn)+" stores "+val+" into "+addr+" on a path where the operand is not known to be an unset variable: a read modifies an existing value")
+		})
+	}
 	if n != 2 {
 		c.undecided("R1", "operand-stores", p.Pos(eb.Pos()), fmt.Sprintf("%d stores through operands in evalBinaryExpr, 2 confirmed by hand", n))
 	}
@@ -221,6 +238,59 @@ func c09R3(c *Ctx) {
 			d := argDesc(call)
 			b, okB := constBool(call.Common().Args[2])
 			c.check(okB && b, "R3", "copy-on-insert "+d, p.InstrPos(call), "evalExprList("+d+", true)", "elements of "+d+" are evaluated without copying: scalars inserted into a container / passed to a call would stay aliased to their source variable")
+		}
+	}
+	// an object literal stores a copy of every member value, whatever kind of expression produced it:
+	// a member read (`{k: $.x}`) hands back the live cell of the container it was read from
+	if ee != nil {
+		nObj := 0
+		doneFn := map[*ssa.Function]bool{}
+		for _, fn := range append([]*ssa.Function{ee}, p.privateCluster(ee)...) {
+			if doneFn[fn] {
+				continue
+			}
+			doneFn[fn] = true
+			allInstrs(fn, func(in ssa.Instruction) {
+				mu, ok := in.(*ssa.MapUpdate)
+				if !ok {
+					return
+				}
+				mt, ok := mu.Map.Type().Underlying().(*types.Map)
+				if !ok || !strings.Contains(p.Render(mu.Key), ".Key") {
+					return
+				}
+				if pt, ok := mt.Elem().(*types.Pointer); !ok || !isLangNamed(pt.Elem(), "Cell") {
+					return
+				}
+				nObj++
+				var raw []string
+				seen := map[ssa.Value]bool{}
+				var leaves func(v ssa.Value)
+				leaves = func(v ssa.Value) {
+					if seen[v] {
+						return
+					}
+					seen[v] = true
+					if ph, ok := v.(*ssa.Phi); ok {
+						for _, e := range ph.Edges {
+							leaves(e)
+						}
+						return
+					}
+					if ex, ok := v.(*ssa.Extract); ok && ex.Index == 0 {
+						if call, ok := ex.Tuple.(*ssa.Call); ok && call.Call.StaticCallee() == cv {
+							return
+						}
+					}
+					raw = append(raw, p.RenderShort(v))
+				}
+				leaves(mu.Value)
+				sort.Strings(raw)
+				c.check(len(raw) == 0, "R3", "copy-on-insert object-literal member", p.InstrPos(in), "every member of an object literal is stored as the result of copyValue", "an object literal stores "+strings.Join(raw, " / ")+" as a member without copying it: for a member or index expression that is the live cell of the container it was read from, so assigning to the new object's member writes into that container (the document, for `{k: $.x}`)")
+			})
+		}
+		if nObj == 0 {
+			c.undecided("R3", "copy-on-insert object-literal member", p.Pos(ee.Pos()), "the member store of the object literal was not found in evalExpr")
 		}
 	}
 	// in evalExprList the copy branch is taken exactly under copy == true
@@ -545,4 +615,53 @@ func appendedPhi(call *ssa.Call) *ssa.Phi {
 		}
 	}
 	return nil
+}
+
+// paramSubst: a renderer for texts of helper g (split off owner) in which g's parameters are
+// replaced by what owner's single call of g passes (after abbrev). With no or several call sites the
+// texts are left as they are.
+func paramSubst(p *Program, owner, g *ssa.Function, abbrev func(string) string) func(string) string {
+	var site ssa.CallInstruction
+	n := 0
+	doneFn := map[*ssa.Function]bool{}
+	for _, fn := range append([]*ssa.Function{owner}, p.privateCluster(owner)...) {
+		if doneFn[fn] {
+			continue
+		}
+		doneFn[fn] = true
+		for _, call := range callsIn(fn) {
+			if call.Common().StaticCallee() == g {
+				site = call
+				n++
+			}
+		}
+	}
+	if n != 1 {
+		return abbrev
+	}
+	type rep struct {
+		re *regexp.Regexp
+		to string
+	}
+	var reps []rep
+	args := site.Common().Args
+	for i, prm := range g.Params {
+		if i >= len(args) {
+			break
+		}
+		to := abbrev(p.Render(args[i]))
+		if to == prm.Name() {
+			continue
+		}
+		reps = append(reps, rep{regexp.MustCompile(`(^|[^A-Za-z0-9_.])` + regexp.QuoteMeta(prm.Name()) + `($|[^A-Za-z0-9_])`), to})
+	}
+	return func(s string) string {
+		s = abbrev(s)
+		for _, r := range reps {
+			for i := 0; i < 4; i++ {
+				s = r.re.ReplaceAllString(s, "${1}"+strings.ReplaceAll(r.to, "$", "$$")+"${2}")
+			}
+		}
+		return s
+	}
 }
